@@ -1142,6 +1142,11 @@ class Sym:
             self._next_loop += 1
             self._reserved[key] = idx
         for vid, name in roots.items():
+            cur_ = entry.env.get(vid)
+            if isinstance(cur_, tuple) and cur_[:1] == ("closure",) and (vid, ()) not in entry.store:
+                # an FnMut closure held in a local and called (`&mut f`) inside the loop: the variable keeps holding that closure;
+                # what the closure mutates are the places it captured (they are roots of their own)
+                continue
             if vid in entry.env or True:
                 entry.env[vid] = ("loop", name, idx)
             for sk in [sk for sk in entry.store if sk[0] == vid]:
@@ -1205,6 +1210,12 @@ class Sym:
                 if i in mut_idx:
                     pl = self.place_of(a, s)
                     if pl is not None:
+                        if pl[3] is None and not pl[2]:
+                            cur = s.env.get(pl[0])
+                            if isinstance(cur, tuple) and cur[:1] == ("closure",):
+                                # `&mut f` of a local FnMut closure handed on as a callable: the callee is the closure itself
+                                nxt.append((s, vals + [cur]))
+                                continue
                         nxt.append((s, vals + [self.place_term(pl)]))
                         continue
                 for s2, (k, v) in self.ev(a, s):
